@@ -264,7 +264,8 @@ static int op_enabled(struct vthread *t)
         if (t->interrupted) return 1;
         return h->conn_kind != CONN_HANG && h->conn_at <= vclock;
     }
-    case OP_DESTROYEND: return !vhosts[t->pend.a].destroy_hang;
+    case OP_DESTROYEND:
+        return t->interrupted || (!vhosts[t->pend.a].destroy_hang && vhosts[t->pend.a].death <= vclock);
     case OP_JOIN: {
         struct vthread *x = thread_of(*(pthread_t *) t->pend.obj);
         return !x || !x->alive;
@@ -300,6 +301,12 @@ static long next_time(void)
             struct vhost *h = &vhosts[t->pend.a];
             if (h->conn_kind != CONN_HANG) c = h->conn_at;
             else if (ct > 0 && sleeper) c = vclock + 1;
+        } else if (t->pend.kind == OP_DESTROYEND) {
+            struct vhost *h = &vhosts[t->pend.a];
+            int stt = verif_t_state((int) t->pend.a);
+            if (!h->destroy_hang && h->death < NEVER) c = h->death;
+            /* the watchdog still applies a timeout to this slot (only if its state was not updated) */
+            else if (sleeper && ((stt == 1 && ct > 0) || (stt == 2 && ut > 0))) c = vclock + 1;
         }
         if (c >= 0 && (best < 0 || c < best))
             best = c;
@@ -427,6 +434,8 @@ static int apply(struct vthread *t, int spurious, int inl)
         m = mutex_of(o->obj);
         if (m->owner >= 0) sched_bug("lock of a held mutex performed");
         m->owner = t->id;
+        if (o->obj == verif_tc_mutex() && t->widx >= 0 && verif_have_t())   /* the worker's epilogue: its final outcome */
+            fprintf(stdout, "T %s final state=%d rc=%d\n", t->name, verif_t_state(t->widx), verif_t_rc(t->widx));
         if (!q) { evhdr(t, inl); fprintf(stdout, "lock %s\n", m->name); }
         o->ret = 0;
         return 1;
@@ -479,7 +488,8 @@ static int apply(struct vthread *t, int spurious, int inl)
     case OP_KILL: {
         struct vthread *x = thread_of(*(pthread_t *) o->obj);
         int hit = 0;
-        if (x && x->alive && (x->pend.kind == OP_POLL || x->pend.kind == OP_CONNEND)) { x->interrupted = 1; hit = 1; }
+        if (x && x->alive && (x->pend.kind == OP_POLL || x->pend.kind == OP_CONNEND ||
+                              x->pend.kind == OP_DESTROYEND)) { x->interrupted = 1; hit = 1; }
         if (!q) { evhdr(t, inl); fprintf(stdout, "kill %s %ld %d%s\n", x ? x->name : "?", o->a, hit,
                                           x && x->vid_reused ? " reused-id" : ""); }
         o->ret = 0;
@@ -613,6 +623,7 @@ static int apply(struct vthread *t, int spurious, int inl)
         if (t->interrupted) { t->interrupted = 0; o->ret = -1; o->err = EINTR; }
         else if (h->conn_kind == CONN_OK) {
             o->ret = VFD_BASE + 2 * o->a; h->connected = 1;
+            h->death = !h->life_set ? 0 : h->life < 0 ? NEVER : vclock + h->life;
             if (reltime) {      /* the remote side's stream script starts now */
                 int k2, j2;
                 for (k2 = 0; k2 < 2; k2++)
@@ -631,6 +642,15 @@ static int apply(struct vthread *t, int spurious, int inl)
         return 1;
     case OP_DESTROYEND: {
         struct vhost *h = &vhosts[o->a];
+        if (t->interrupted && (h->destroy_hang || h->death > vclock)) {
+            /* waitpid() interrupted: the transport logs it and returns; the command is alive and not reaped */
+            t->interrupted = 0;
+            o->ret = 0;
+            if (!q) { evhdr(t, inl); fprintf(stdout, "destroyEnd %ld -1 EINTR-not-reaped inflight=%d\n", o->a, inflight); }
+            t->hist = mix(t->hist, 99);
+            return 1;
+        }
+        t->interrupted = 0;
         h->ndend++;
         inflight--;
         o->ret = h->destroy_rc;
@@ -639,6 +659,9 @@ static int apply(struct vthread *t, int spurious, int inl)
     }
     case OP_FWD:
         nfwd++;
+        if (o->a >= 0 && o->a < nvhosts && (o->b == SIGKILL || ((o->b == SIGTERM || o->b == SIGINT) &&
+                                                                 !vhosts[o->a].ignoreterm)))
+            if (vhosts[o->a].death > vclock) vhosts[o->a].death = vclock;
         if (!q) { evhdr(t, inl); fprintf(stdout, "fwd %ld %ld\n", o->a, o->b); }
         o->ret = 0;
         return 1;
@@ -892,6 +915,13 @@ int __wrap_pthread_create(pthread_t *thr, const pthread_attr_t *attr, void *(*fn
 int __wrap_pthread_mutex_lock(pthread_mutex_t *m)
 {
     struct op o = { .kind = OP_LOCK, .cls = mutex_of(m)->cls, .obj = m };
+    if (self && self->alive && mutex_of(m)->owner == self->id) {
+        /* a default (non-recursive) mutex locked by the thread that holds it: that thread hangs for good.  Reported
+         * at once and by name (status=self-deadlock) instead of leaving the thread blocked until -- if ever --
+         * nothing else can run. */
+        fprintf(stdout, "I %s self-lock %s\n", self->name, mutex_of(m)->name);
+        finish("self-deadlock", 0);
+    }
     return (int) sched_do(o)->ret;
 }
 int __wrap_pthread_mutex_unlock(pthread_mutex_t *m)
@@ -1134,6 +1164,8 @@ int main(int argc, char **argv)
             h->conn_at = v ? atol(v) : 0;
             h->conn_rel = h->conn_at;
         } else if (h && !strcmp(k, "rc")) h->destroy_rc = atoi(v);
+        else if (h && !strcmp(k, "life")) { h->life = atol(v); h->life_set = 1; }
+        else if (h && !strcmp(k, "ignoreterm")) h->ignoreterm = atoi(v);
         else if (h && !strcmp(k, "destroyhang")) h->destroy_hang = atoi(v);
         else if (h && (!strcmp(k, "out") || !strcmp(k, "err"))) {
             struct script *s = &h->s[k[0] == 'e'];
